@@ -91,6 +91,7 @@ def gen(rng, tier):
     else:
         sc['n'] = rng.randint(1, 10)
         sc['data'] = world.gen_trace(rng, vars_, sc['n'])
+        common.add_clock(rng, sc)
     return sc
 
 
@@ -129,6 +130,9 @@ def eqn(a, b):
 
 def run(sc):
     r = Result()
+    r.faults.update(sc.get('fired') or {})
+    if sc.get('nbatches', 1) > 1:
+        r.faults['batch_split'] += sc['nbatches'] - 1
     dense = sc['kind'].startswith('ct')
     if not common.ref_defined([sc['ast']], dense, sc['signals'] if dense else sc['data'], sc.get('n')):
         r.discarded = True
@@ -166,8 +170,8 @@ def run(sc):
                 nontriv = len(fb) > 1
             else:
                 n, data = sc['n'], sc['data']
-                a = [p[1] for p in M.dt_evaluate(mm, list(range(n)), data)]
-                b = [p[1] for p in M.dt_evaluate(mi, list(range(n)), data)]
+                a = [p[1] for p in M.dt_evaluate(mm, common.stamps_of(sc), data)]
+                b = [p[1] for p in M.dt_evaluate(mi, common.stamps_of(sc), data)]
                 r.obs.append(b)
                 r.evals += 1
                 if len(a) != len(b) or not all(eqn(x, y) for x, y in zip(a, b)):
@@ -214,8 +218,8 @@ def run(sc):
                 outs = []
                 for i in range(sc['n']):
                     inp = [(v, sc['data'][v][i]) for v in sc['vars']]
-                    a = M.dt_update(mm, i, inp)
-                    b = M.dt_update(mi, i, inp)
+                    a = M.dt_update(mm, common.stamps_of(sc)[i], inp)
+                    b = M.dt_update(mi, common.stamps_of(sc)[i], inp)
                     outs.append(b)
                     r.evals += 1
                     r.sim_time += 1
